@@ -170,7 +170,7 @@ def inject_fault(ws: typing.Any, fault: typing.Any) -> typing.Tuple[typing.Any, 
         return ws, {"carriers": {c}, "kind": kind}
     if kind == "self":
         add_line(c, "@assert %s.ID == %d" % (ref_name(c, c), c))
-        return ws, {"carriers": {c}, "kind": kind}
+        return ws, {"carriers": {c}, "kind": kind, "edges": [(c, c)]}
     if kind == "wrong-case":
         j = fault["other"] % n
         name = wsp.full_name(ws, defs[j])
@@ -187,7 +187,7 @@ def inject_fault(ws: typing.Any, fault: typing.Any) -> typing.Tuple[typing.Any, 
         back = reach[fault["other"] % len(reach)]
         add_line(back, "@assert %s.ID == %d" % (ref_name(c, back), c))
         on_cycle = {i for i in range(n) if c in wsp.closure(ws, [i]) and back in wsp.closure(ws, [i])} | {c, back}
-        return ws, {"carriers": {c, back}, "kind": kind}
+        return ws, {"carriers": {c, back}, "kind": kind, "edges": [(back, c)]}
     if kind == "duplicate-in-second-root":
         j = fault["other"] % n
         if j == c:
@@ -198,7 +198,7 @@ def inject_fault(ws: typing.Any, fault: typing.Any) -> typing.Tuple[typing.Any, 
         ws["twins"] = [twin]
         add_line(c, "@assert %s.ID == %d" % (ref_name(j, c), j))
         referrers = {i for i, x in enumerate(defs) if any(r["to"] == j for r in x["refs"])}
-        return ws, {"carriers": {c} | referrers, "kind": kind}
+        return ws, {"carriers": {c} | referrers, "kind": kind, "edges": [(c, j)]}
     raise HarnessError(kind)
 
 
